@@ -62,6 +62,10 @@ class Table:
             # an alternative that only ever rejects needs no comparison
             if group and all(f["kind"] == "literal" and f.get("reject") for f in group):
                 continue
+            # `PAT if guard => REJECT`: an alternative whose only outcome is the rejecting literal, reached on conditions that reject
+            if any(f["kind"] == "literal" and f.get("reject") for f in group) and \
+                    all((f["kind"] == "literal" and f.get("reject")) or f.get("reject_when") is True for f in group):
+                continue
             if not any(tuple(e.get("alt", ())) == leaf[:len(tuple(e.get("alt", ())))] for e in eqs):
                 self.last_gap = (arm, path, leaf)
                 return False
